@@ -125,11 +125,11 @@ def value_range(v, p):
             khi = math.ceil(ih)
             if il == ih:
                 klo = khi
-        else:  # round: nearest, ties either way
-            klo = math.ceil(il - F(1, 2))
-            khi = math.floor(ih + F(1, 2))
-            if not ila and (il - F(1, 2)) == klo and False:
-                pass
+        else:  # round: nearest, ties to even (NumPy); an excluded end point that is a tie does not count
+            def tie(x):
+                return F(x - F(1, 2)).denominator == 1
+            klo = _round_half_even(il) if (ila or not tie(il)) else il + F(1, 2)
+            khi = _round_half_even(ih) if (iha or not tie(ih)) else ih - F(1, 2)
             if khi < klo:
                 khi = klo
     lo_v, hi_v = scale * klo + offset, scale * khi + offset
@@ -250,6 +250,17 @@ class Kernel:
                 return [(pp, self._step('round', v, t)) for pp, v in self.ev(a[0], p)]
             if q in ('builtins.int', 'numpy.trunc', 'math.trunc', 'numpy.fix'):
                 return self._trunc(a[0], p, t)
+            if q == 'numpy.where' and len(a) == 3:
+                out = []
+                for pp, bv in self.evb(a[0], p):
+                    out.extend(self.ev(a[1] if bv else a[2], pp))
+                return _merge(out)
+            if q in ('numpy.clip',) and len(a) == 3:
+                return self._minmax('max', self._minmax_terms('min', a[0], a[2], p, t), a[1], t)
+            if q in ('numpy.minimum', 'numpy.fmin', 'builtins.min') and len(a) == 2:
+                return self._minmax_terms('min', a[0], a[1], p, t)
+            if q in ('numpy.maximum', 'numpy.fmax', 'builtins.max') and len(a) == 2:
+                return self._minmax_terms('max', a[0], a[1], p, t)
             if q in ('numpy.abs', 'builtins.abs', 'numpy.fabs'):
                 out = []
                 for pp, v in self.ev(a[0], p):
@@ -273,6 +284,27 @@ class Kernel:
                 return parts[0]
             self.bad(t)
         self.bad(t)
+
+    def _minmax_terms(self, which, x, y, p, t):
+        out = []
+        for p1, vx in self.ev(x, p):
+            for p2, vy in self.ev(y, p1):
+                out.extend(self._pick(which, vx, vy, p2, t))
+        return _merge(out)
+
+    def _minmax(self, which, parts, y, t):
+        out = []
+        for p1, vx in parts:
+            for p2, vy in self.ev(y, p1):
+                out.extend(self._pick(which, vx, vy, p2, t))
+        return _merge(out)
+
+    def _pick(self, which, vx, vy, p, t):
+        out = []
+        for pp, lt in self._cmp_num(vx, 'lt', vy, p, t):
+            take_x = lt if which == 'min' else not lt
+            out.append((pp, vx if take_x else vy))
+        return out
 
     def _trunc(self, inner, p, t):
         out = []
@@ -474,10 +506,28 @@ class Kernel:
             thr, iop = {'le': (math.floor(k), 'le'), 'lt': (math.ceil(k) - 1, 'le'),
                         'gt': (math.floor(k), 'gt'), 'ge': (math.ceil(k) - 1, 'gt')}.get(op, (None, None))
         else:
-            thr = None
+            return self._round_cmp(a, b, op, k, p, t)
         if thr is None:
-            self.bad(t, '(comparison on a rounded value)')
+            self.bad(t, '(comparison on a stepped value: unsupported operator)')
         return self._affine_cmp(a, b - thr, iop, p)
+
+    def _round_cmp(self, a, b, op, k, p, t):
+        """round(a v + b) op k, ties to even: round(x) >= m  <=>  x > m - 1/2, or x == m - 1/2 and m even."""
+        if op in ('eq', 'ne'):
+            self.bad(t, '(equality on a rounded value)')
+        if op in ('lt', 'le'):
+            neg = {'lt': 'ge', 'le': 'gt'}[op]
+            return [(pp, not bv) for pp, bv in self._round_cmp(a, b, neg, k, p, t)]
+        m = math.ceil(k) if op == 'ge' else math.floor(k) + 1      # round(x) >= m
+        tie = F(m) - F(1, 2)
+        out = []
+        for pp, below in self._affine_cmp(a, b - tie, 'lt', p):
+            if below:
+                out.append((pp, False))
+                continue
+            for p2, at in self._affine_cmp(a, b - tie, 'eq', pp):
+                out.append((p2, (m % 2 == 0) if at else True))
+        return _mergeb(out)
 
 
 def _top_masks(t):
